@@ -23,7 +23,7 @@ HEADER = ("From Coq Require Import List NArith Bool.\nImport ListNotations.\n"
 TREE_FILES_MARKED = True
 
 
-def gen_plan_case(rng: random.Random):
+def gen_plan_case(rng: random.Random, directed: str | None = None):
     nsrc = rng.randint(2, 3)
     # literal static files (never deleted: api.static() of a missing literal path fails in the plan,
     # D26) and files below the static tree data/ (may be deleted and restored)
@@ -105,11 +105,46 @@ def gen_plan_case(rng: random.Random):
         src += [(pid[p], cid(("script", p, cur_ver[p]))) for p in sorted(versions)]
         return src, []
     history, worlds = [], [world()]
-    for _ in range(rng.randint(1, 5)):
+    # directed histories for the mechanisms that random edits combine rarely:
+    #   blocked  a sub-plan loses its tree-owned input (it cannot rerun) while its creator reruns
+    #            with the same definitions (static files re-declared: its products are marked and
+    #            must NOT be dispatched: not safe); a source changes; the input comes back
+    #   readd    a plan drops one child and defines it again (recycle with state and subtree)
+    script_plan = None
+    blocked = [e for e in ents if e["script"] and e["decl"] and e["cr"] is not None]
+    parents = [e for e in ents if e["script"] and e["kids"]]
+    if directed == "blocked" and blocked:
+        e = rng.choice(blocked)
+        cr = e["cr"]["script"]
+        versions[cr][9] = list(versions[cr][0])
+        script_plan = [[("delete", e["decl"][0]), ("script", cr, 9)], [("change", rng.choice(sources))],
+                       [("restore", e["decl"][0])], [("script", cr, 0)]]
+    elif directed == "readd" and parents:
+        e = rng.choice(parents)
+        k = rng.choice(e["kids"])
+        versions[e["script"]][8] = [x for x in e["kids"] if x is not k]
+        script_plan = [[("script", e["script"], 8)], [("script", e["script"], 0)], [("change", rng.choice(sources))]]
+    for step_i in range(len(script_plan) if script_plan else rng.randint(1, 5)):
         edits = []
-        for _ in range(rng.randint(1, 2)):
-            kind = rng.choice(["change", "delete", "restore", "restore", "script", "script", "script", "noop"])
-            if kind == "change":
+        todo = script_plan[step_i] if script_plan else [None] * rng.randint(1, 2)
+        for item in todo:
+            kind = item[0] if item else rng.choice(
+                ["change", "delete", "restore", "restore", "script", "script", "script", "noop"])
+            if item and kind == "change":
+                p = item[1]
+                version[p] += 1
+                present.add(p)
+                edits.append({"op": "write", "path": p, "content": text(p)})
+            elif item and kind == "delete":
+                present.discard(item[1])
+                edits.append({"op": "delete", "path": item[1]})
+            elif item and kind == "restore":
+                present.add(item[1])
+                edits.append({"op": "write", "path": item[1], "content": text(item[1])})
+            elif item and kind == "script":
+                cur_ver[item[1]] = item[2]
+                edits.append({"op": "script", "path": item[1], "actions": body(item[1], item[2])})
+            elif kind == "change":
                 p = rng.choice(files)
                 version[p] += 1
                 present.add(p)
@@ -145,7 +180,9 @@ def correspondence_plan(ctx):
     checks, meta = [], []
     for i in range(n):
         rng = random.Random(f"c01-plan-{ctx.seed}-{ctx.tier}-{i}")
-        project, history, ents, pid, worlds, tab = gen_plan_case(rng)
+        directed = {0: "blocked", 1: "readd", 2: "blocked"}.get(i)
+        project, history, ents, pid, worlds, tab = gen_plan_case(rng, directed)
+        ctx.count("plan_directed:" + str(directed))
         results = e3.run_history(project, history, timeout=40)
         labels = {e["label"]: e["id"] for e in ents}
         phases = []
